@@ -64,6 +64,7 @@ type Config struct {
 	DurMode     int    `json:"dur_mode"` // 0 small, 1 mixed, 2 huge
 	WeightMode  int    `json:"weight_mode"`
 	Keys        int    `json:"keys"`
+	WBase       uint64 `json:"w_base"` // the weigher is built around this value (the source's maximum)
 }
 
 func (c *Config) WithExp() bool  { return c.ExpKind != ExpNone }
@@ -165,7 +166,7 @@ func (c *Config) funcDur(kind, key, value int) int64 {
 // weightFor is the weigher of weighted caches.
 func (c *Config) weightFor(key, value int) uint32 {
 	r := core.NewRng(core.Derive(c.Seed, 11, uint64(key), uint64(value)))
-	m := c.Maximum
+	m := c.WBase
 	switch c.WeightMode {
 	case 0: // small weights
 		return uint32(r.Intn(4))
